@@ -1,2 +1,273 @@
-From BFS Require Import Backup.History.
-Example placeholder_C16 : True. Proof. exact I. Qed.
+(** C16 — symlink resolution for mutating operations.
+
+    "For every symlink topology in the base filesystem (absolute and relative
+    links, links in any parent component, chains of links, dangling links,
+    cycles), the path BackupFS operates on for a mutating operation names the
+    same entry the caller's path names under OS semantics, has no symlink in
+    any parent component, leaves the final component unresolved, and treats a
+    missing tail lexically.  Resolution always terminates."
+
+    The theorems are about [real_path osfs] (Backup/BackupFS.v: the model of
+    resolvePathWithInfo / realPath of fs_utils.go, run against the Go code by
+    the correspondence check) on the concrete filesystem model of
+    Fs/FsModel.v; "OS semantics" is the kernel path walk [resolve] (symlinks
+    followed in every parent component, physical "..", ELOOP after 40 hops).
+    [osfs] has no spy layer: crash points and fault plans of the world do not
+    matter, so the statements hold for every world, not only [quiet] ones.
+    Proofs: Proofs/ResolveFacts.v.
+
+    PROVED, for every world and every name:
+    - [C16_terminates_readonly]: resolution returns (never [MHalt]) and leaves
+      the world unchanged.
+    - [C16_no_fuel_exhaustion]: for absolute names in a well-formed tree,
+      *whatever* the symlink topology (cycles, dangling links, links through
+      links, unclean targets), the model's recursion budget is not exhausted
+      when  N*(T+1) + 40*T + 4 <= 4096  (N components in the name, at most T
+      separator-delimited pieces in any link target).
+    - [C16_fixpoint]: a name without a symlink among its parents resolves to
+      itself.
+
+    PROVED under [c16_hyps]: the tree is well formed ([wf]), within the fuel
+    bound [size_ok] (for every entry: key depth + pieces of its link target +
+    components of the name + 3 < 4096), and the recorded deviations are
+    excluded by their trigger predicates of Backup/Triggers.v, evaluated on a
+    configuration whose base is the plain OS filesystem ([plain_cfg]):
+      D20  the name is relative                 ([is_abs (clean n) = true])
+      D17  a link target runs through a link    ([resolve_through_link .. = false])
+      K2   a stored link target is not clean    ([unclean_target w = false],
+                                                 i.e. [TrUncleanLinkTarget] not in [link_flags cfg w])
+    ([C16_hyps_of_triggers]: they hold whenever [triggers cfg (ORealPath n) w = []];
+     [C16_hyps_decidable]: all of [c16_hyps] is a boolean computation.)
+    - [C16_succeeds]: resolution returns a path (no error, in particular no
+      fuel exhaustion).
+    - [C16_no_symlink_parent]: the result is absolute, cleaned, and no proper
+      ancestor of it is a symlink ([nolinkpar]).
+    - [C16_same_entry]: the result and the caller's (cleaned) name give the
+      same answer under the kernel walk with the final component not followed
+      - the same key and node, the same missing entry (parent key, name), or
+      the same error - provided the kernel's answer for the caller's name is
+      [definite], i.e. is not ELOOP / the model's EFUEL.
+      [C16_same_entry_bounded]: the EFUEL half follows from a size bound.
+    - [C16_final_unresolved]: if the name is dir/base and dir resolves
+      (following links) to the directory key kd, the result is the path of
+      kd ++ [base], whether or not that entry is a symlink.
+    - [C16_missing_tail]: if a prefix of the name resolves to the directory
+      kd and the next component does not exist in it, the result is the path
+      of kd followed by the remaining components verbatim.
+    - [C16_shape]: in general the result is (a link-free key that is
+      kernel-equivalent to the consumed prefix of the name) ++ (the rest of the
+      name, verbatim), where the rest is the final component alone or starts
+      at a component missing below that key.
+    - [C16_idempotent]: resolving the result again returns it.
+
+    NECESSITY of the exclusions (T4), each a closed computation on a small
+    tree: [C16_D17_necessary], [C16_K2_necessary], [C16_D20_necessary]; the
+    hypotheses are satisfiable on a tree with an absolute and a relative link
+    in parent positions ([C16_satisfiable]).  K3 (climbing relative target)
+    and K4 (dangling parent link) need NOT be excluded for C16 over the plain
+    OS filesystem ([C16_K3_not_needed], [C16_K4_not_needed]): they concern the
+    operation performed afterwards / the prefixed layerings.
+
+    FINDING ([C16_finding_ELOOP], not covered by a trigger): a name whose
+    resolution follows more than 40 symlinks gets ELOOP from the kernel, while
+    resolvePathWithInfo resolves it link by link and BackupFS operates on the
+    existing target.  This is why [C16_same_entry] carries [definite].
+
+    NOT PROVED (stated as [_stmt] definitions at the end): the relative-name
+    versions (D20 is excluded throughout), where results may be relative. *)
+From stdpp Require Import gmap.
+From BFS Require Import Backup.Triggers Fs.FsSpec.
+From BFS Require Import Proofs.FsFacts Proofs.ResolveFacts.
+Local Open Scope nat_scope.
+
+(** * T1: totality *)
+
+Theorem C16_terminates_readonly : forall n w,
+  snd (real_path osfs n w) = w /\ fst (real_path osfs n w) <> MHalt.
+Proof. exact real_path_readonly. Qed.
+Print Assumptions C16_terminates_readonly.
+
+Theorem C16_no_fuel_exhaustion : forall n w T,
+  wf (st_fs (w_st w)) -> is_abs n = true -> links_bounded (st_fs (w_st w)) T ->
+  length (comps n) * (T + 1) + 40 * T + 4 <= walk_fuel ->
+  fst (real_path osfs n w) <> MErr EFUEL.
+Proof. exact real_path_no_efuel. Qed.
+Print Assumptions C16_no_fuel_exhaustion.
+
+Theorem C16_succeeds : forall q n w,
+  c16_hyps q n w -> exists rp, real_path osfs n w = (MOk rp, w).
+Proof. exact real_path_succeeds. Qed.
+Print Assumptions C16_succeeds.
+
+(** * T2: soundness under the exclusion of D20, D17, K2 *)
+
+Theorem C16_no_symlink_parent : forall q n w,
+  c16_hyps q n w -> forall rp, fst (real_path osfs n w) = MOk rp ->
+  nolinkpar (st_fs (w_st w)) rp.
+Proof. exact real_path_nolinkpar. Qed.
+Print Assumptions C16_no_symlink_parent.
+
+Theorem C16_same_entry : forall q n w,
+  c16_hyps q n w -> forall rp, fst (real_path osfs n w) = MOk rp ->
+  definite (resolve (st_fs (w_st w)) (clean n) false) ->
+  resolve (st_fs (w_st w)) rp false = resolve (st_fs (w_st w)) (clean n) false.
+Proof. exact real_path_same_entry. Qed.
+Print Assumptions C16_same_entry.
+
+Theorem C16_same_entry_bounded : forall q n w T rp,
+  c16_hyps q n w -> links_bounded (st_fs (w_st w)) T ->
+  length (comps n) + 40 * T + 3 <= walk_fuel ->
+  fst (real_path osfs n w) = MOk rp ->
+  resolve (st_fs (w_st w)) (clean n) false <> WErr ELOOP ->
+  resolve (st_fs (w_st w)) rp false = resolve (st_fs (w_st w)) (clean n) false.
+Proof. exact real_path_same_entry_bounded. Qed.
+Print Assumptions C16_same_entry_bounded.
+
+Theorem C16_final_unresolved : forall q n w,
+  c16_hyps q n w -> forall rp, fst (real_path osfs n w) = MOk rp ->
+  forall dcs b kd m,
+    comps n = dcs ++ [b] ->
+    resolve (st_fs (w_st w)) (kpath dcs) true = WFound kd (Dir m) ->
+    rp = kpath (kd ++ [b]).
+Proof. exact real_path_final_unresolved. Qed.
+Print Assumptions C16_final_unresolved.
+
+Theorem C16_missing_tail : forall q n w,
+  c16_hyps q n w -> forall rp, fst (real_path osfs n w) = MOk rp ->
+  forall done c tail kd m,
+    comps n = done ++ c :: tail ->
+    resolve (st_fs (w_st w)) (kpath done) true = WFound kd (Dir m) ->
+    st_fs (w_st w) !! (kd ++ [c]) = None ->
+    rp = kpath (kd ++ c :: tail).
+Proof. exact real_path_missing_tail. Qed.
+Print Assumptions C16_missing_tail.
+
+Theorem C16_shape : forall q n w,
+  c16_hyps q n w -> forall rp, fst (real_path osfs n w) = MOk rp ->
+  comps n <> [] ->
+  exists done tail k',
+    comps n = done ++ tail /\ tail <> [] /\ rp = kpath (k' ++ tail) /\
+    NL (st_fs (w_st w)) k' /\
+    (length tail = 1 \/ st_fs (w_st w) !! (k' ++ firstn 1 tail) = None) /\
+    (forall X fl r, (X <> [] \/ fl = true) ->
+       walks (st_fs (w_st w)) [] (done ++ X) fl r -> walks (st_fs (w_st w)) [] (k' ++ X) fl r).
+Proof. exact real_path_lexical_tail. Qed.
+Print Assumptions C16_shape.
+
+(** * T3: fixpoint, idempotence *)
+
+Theorem C16_fixpoint : forall p w,
+  wf (st_fs (w_st w)) -> nolinkpar (st_fs (w_st w)) p -> length (comps p) + 2 < walk_fuel ->
+  real_path osfs p w = (MOk p, w).
+Proof. exact real_path_fixpoint. Qed.
+Print Assumptions C16_fixpoint.
+
+Theorem C16_idempotent : forall q n w rp,
+  c16_hyps q n w -> fst (real_path osfs n w) = MOk rp ->
+  real_path osfs rp w = (MOk rp, w).
+Proof. exact real_path_idempotent. Qed.
+Print Assumptions C16_idempotent.
+
+(** * The hypotheses are boolean computations over triggers of Backup/Triggers.v *)
+
+Theorem C16_hyps_decidable : forall q n w, c16_hypsb q n w = true -> c16_hyps q n w.
+Proof. exact c16_hypsb_ok. Qed.
+Print Assumptions C16_hyps_decidable.
+
+Theorem C16_hyps_of_triggers : forall q n w,
+  wf (st_fs (w_st w)) -> size_ok (st_fs (w_st w)) (length (comps n)) ->
+  triggers (plain_cfg q) (ORealPath n) w = [] -> c16_hyps q n w.
+Proof. exact c16_hyps_of_triggers. Qed.
+Print Assumptions C16_hyps_of_triggers.
+
+Theorem C16_K2_is_the_link_flag : forall cfg w,
+  unclean_target w = true <-> In TrUncleanLinkTarget (link_flags cfg w).
+Proof. exact unclean_target_flag. Qed.
+Print Assumptions C16_K2_is_the_link_flag.
+
+(** * T4: satisfiability and necessity (closed computations on small trees) *)
+
+(** { /d/, /d/e/, /d/e/f, /a -> /d, /d/r -> e }, name "/a/r/f" resolves to "/d/e/f" *)
+Theorem C16_satisfiable :
+  c16_hypsb xq n_sat w_sat = true /\
+  (fst (real_path osfs n_sat w_sat) = MOk rp_sat /\ rp_sat <> clean n_sat) /\
+  (nolinkpar (st_fs (w_st w_sat)) rp_sat /\
+   resolve (st_fs (w_st w_sat)) rp_sat false = resolve (st_fs (w_st w_sat)) (clean n_sat) false /\
+   real_path osfs rp_sat w_sat = (MOk rp_sat, w_sat)).
+Proof. exact (conj sat_hyps (conj sat_result sat_conclusions)). Qed.
+Print Assumptions C16_satisfiable.
+
+(** { /d/, /d/c/, /d/c/x, /b -> /d, /a -> /b/c }, name "/a/x": result "/b/c/x" has the link /b as a parent *)
+Theorem C16_D17_necessary :
+  wfb (st_fs (w_st w_d17)) = true /\ size_okb (st_fs (w_st w_d17)) (length (comps n_d17)) = true /\
+  is_abs (clean n_d17) = true /\ unclean_target w_d17 = false /\
+  resolve_through_link (plain_cfg xq) (cands (clean n_d17)) (fun x => x) w_d17 = true /\
+  fst (real_path osfs n_d17 w_d17) = MOk rp_d17 /\
+  ~ nolinkpar (st_fs (w_st w_d17)) rp_d17.
+Proof. exact d17_necessary. Qed.
+Print Assumptions C16_D17_necessary.
+
+(** { /d/, /d/y, /l -> /x/../d }, name "/l/y": kernel ENOENT, result "/d/y" exists *)
+Theorem C16_K2_necessary :
+  wfb (st_fs (w_st w_k2)) = true /\ size_okb (st_fs (w_st w_k2)) (length (comps n_k2)) = true /\
+  is_abs (clean n_k2) = true /\
+  resolve_through_link (plain_cfg xq) (cands (clean n_k2)) (fun x => x) w_k2 = false /\
+  unclean_target w_k2 = true /\
+  fst (real_path osfs n_k2 w_k2) = MOk rp_k2 /\
+  resolve (st_fs (w_st w_k2)) (clean n_k2) false = WErr ENOENT /\
+  exists m c, resolve (st_fs (w_st w_k2)) rp_k2 false = WFound [[100%N];[121%N]] (File m c).
+Proof. exact k2_necessary. Qed.
+Print Assumptions C16_K2_necessary.
+
+(** { /d/, /d/y, /r -> d }, name "r/y": result "d/y" is relative *)
+Theorem C16_D20_necessary :
+  wfb (st_fs (w_st w_d20)) = true /\ size_okb (st_fs (w_st w_d20)) (length (comps n_d20)) = true /\
+  resolve_through_link (plain_cfg xq) (cands (clean n_d20)) (fun x => x) w_d20 = false /\
+  unclean_target w_d20 = false /\
+  is_abs (clean n_d20) = false /\
+  fst (real_path osfs n_d20 w_d20) = MOk rp_d20 /\
+  ~ nolinkpar (st_fs (w_st w_d20)) rp_d20.
+Proof. exact d20_necessary. Qed.
+Print Assumptions C16_D20_necessary.
+
+(** FINDING: { /d/, /d/x, /d/l -> /d }, name "/d" + 41 * "/l" + "/x": kernel ELOOP, BackupFS works on "/d/x" *)
+Theorem C16_finding_ELOOP :
+  c16_hypsb xq n_loop w_loop = true /\
+  fst (real_path osfs n_loop w_loop) = MOk rp_loop /\
+  resolve (st_fs (w_st w_loop)) (clean n_loop) false = WErr ELOOP /\
+  exists m c, resolve (st_fs (w_st w_loop)) rp_loop false = WFound [[100%N];[120%N]] (File m c).
+Proof. exact eloop_finding. Qed.
+Print Assumptions C16_finding_ELOOP.
+
+Theorem C16_K3_not_needed :
+  In TrClimbingLink (link_flags (plain_cfg xq) w_k3) /\ c16_hypsb xq n_k3 w_k3 = true /\
+  fst (real_path osfs n_k3 w_k3) = MOk [47;100;47;120]%N /\
+  resolve (st_fs (w_st w_k3)) [47;100;47;120]%N false = resolve (st_fs (w_st w_k3)) (clean n_k3) false.
+Proof. exact k3_not_needed. Qed.
+Print Assumptions C16_K3_not_needed.
+
+Theorem C16_K4_not_needed :
+  dangling_parent (plain_cfg xq) n_k4 w_k4 = true /\ c16_hypsb xq n_k4 w_k4 = true /\
+  fst (real_path osfs n_k4 w_k4) = MOk [47;110;47;120]%N /\
+  resolve (st_fs (w_st w_k4)) [47;110;47;120]%N false = resolve (st_fs (w_st w_k4)) (clean n_k4) false.
+Proof. exact k4_not_needed. Qed.
+Print Assumptions C16_K4_not_needed.
+
+(** * Not proved: relative names (D20).  The model's working directory is the
+    root; results of relative names may be relative.  Statements (not
+    theorems): the same-entry property and the fuel bound without [is_abs]. *)
+
+Definition C16_relative_same_entry_stmt : Prop :=
+  forall q n w rp,
+    wf (st_fs (w_st w)) -> size_ok (st_fs (w_st w)) (length (comps n)) ->
+    resolve_through_link (plain_cfg q) (cands (clean n)) (fun x => x) w = false ->
+    unclean_target w = false ->
+    fst (real_path osfs n w) = MOk rp ->
+    definite (resolve (st_fs (w_st w)) (clean n) false) ->
+    resolve (st_fs (w_st w)) rp false = resolve (st_fs (w_st w)) (clean n) false.
+
+Definition C16_relative_no_fuel_exhaustion_stmt : Prop :=
+  forall n w T,
+    wf (st_fs (w_st w)) -> links_bounded (st_fs (w_st w)) T ->
+    length (comps n) * (T + 1) + 40 * T + 4 <= walk_fuel ->
+    fst (real_path osfs n w) <> MErr EFUEL.
